@@ -204,11 +204,15 @@ func (ctrler *RigoApp) InitChain(req abcitypes.RequestInitChain) abcitypes.Respo
 			ctrler.logger.Error("RigoApp", "error", xerr)
 			panic(xerr)
 		}
+		// A genesis stake is not created by a transaction and has no transaction hash.
+		// Stakes are identified by this id and the ledger of unbonding stakes is keyed by it:
+		// every genesis stake needs an id of its own (12 zero bytes + the validator's address),
+		// otherwise two genesis stakes unbonding at the same time overwrite each other.
 		s0 := stake.NewStakeWithPower(
 			addr, addr, // self staking
 			val.Power,
 			1,
-			bytes.ZeroBytes(32), // 0x00... txhash
+			append(bytes.ZeroBytes(12), addr...),
 		)
 		initStakes[i] = &stake.InitStake{
 			pubBytes,
